@@ -54,7 +54,7 @@ def collect(prop, tier, shard, nshards, seed, ncases, out_path):
     res = {
         'evaluations': 0, 'status': {'pass': 0, 'fail': 0, 'inconclusive': 0},
         'inconclusive': {}, 'tags': {}, 'nontrivial_hashes': [], 'fails': {},
-        'samples': [], 'harness_error': None, 'enumerated': 0, 'tags_nontrivial': {},
+        'samples': [], 'harness_error': None, 'enumerated': 0, 'tags_nontrivial': {}, 'tags_inconclusive': {},
     }
     nt = set()
     summarize = getattr(mod, 'summarize', lambda c: c)
@@ -69,6 +69,8 @@ def collect(prop, tier, shard, nshards, seed, ncases, out_path):
         if st_ == 'inconclusive':
             r = out['reason']
             res['inconclusive'][r] = res['inconclusive'].get(r, 0) + 1
+            for t in out.get('tags', ()):
+                res['tags_inconclusive'][t] = res['tags_inconclusive'].get(t, 0) + 1
             return out
         if out.get('nontrivial'):
             h = case_hash(case)
